@@ -288,7 +288,7 @@ U("ps.tell_if_real", src="units/ps_real.c", harness="h_tell_if_real", plain=True
   props=["C02", "C08", "C04"], contract_files=[], native=True, timeout=300, min_obligations=20, unwind=8)
 U("ps.flush", src="units/ps_unit.c", harness="h_flush", enforce="flush_pubsub_msgs", loop_contracts=True, defines=["V_FLUSH_UNIT"],
   replace=["m_queue_new", "v_read", "m_mod_is", "new_evt", "m_queue_enqueue", "m_mem_unref", "call_pubsub_cb", "fs_ctx_stopped"], logctx="CORE",
-  props=["C02", "C08", "C04"], contract_files=PSC, native=False, timeout=300, min_obligations=30, must_have=["invariant after step"])
+  props=["C02", "C08", "C01", "C04"], contract_files=PSC, native=False, timeout=300, min_obligations=30, must_have=["invariant after step"])
 U("evts.new_evt", src="units/evts_unit.c", harness="h_new_evt", enforce="new_evt", replace=["m_mem_new", "m_mem_ref"], logctx="CORE",
   props=["C02", "C04"], contract_files=EVTS, native=False, timeout=300, min_obligations=20)
 CTXAPI = ABS + ["contracts/ctxapi.contracts.h"]
@@ -520,3 +520,8 @@ U("ctx.recv_pill_real", src="units/recv_real.c", harness="h_recv_pill_real", pla
 U("src.process_ps", src="units/src_unit.c", harness="h_process_ps", enforce="process_ps", defines=["V_PROCPS_UNIT"], logctx="CORE",
   replace=["v_read", "m_mem_ref", "m_mem_unref"], props=["C08", "C04"], contract_files=SRCC, native=False, timeout=200, min_obligations=10)
 
+U("ctx.recv_oneshot_real", src="units/recv_real.c", harness="h_recv_oneshot_real", plain=True, replace_calls={"push_evt": "v_push"}, logctx="CORE", bounded=True,
+  bound_note="real ctx.c recv_events(), one batch of <= 2 events of a one-shot subscription / one-shot timer / ordinary timer; loops unwound with unwinding assertions",
+  unwind=34, props=["C03", "C09", "C04"], contract_files=[], native=False, timeout=300, min_obligations=20, cbmc_extra=["--no-propagation"])
+U("evts.set_batch_timeout", src="units/evts_unit.c", harness="h_set_batch_timeout", enforce="m_mod_set_batch_timeout", defines=["V_BT_UNIT"], logctx="CORE",
+  replace=["m_ctx", "m_mod_is", "m_mod_src_deregister_tmr", "m_mod_src_register_tmr"], props=["C13", "C14", "C04"], contract_files=EVTS, native=False, timeout=200, min_obligations=20)
